@@ -173,6 +173,111 @@ theorem setattr_value_fresh (M : Kind → Cat → Mode) (fuel : Nat) (s : Shape)
     observeN n (runScript h1 K acts).1 v' = observeN n h1 v' :=
   retained_fresh_observe M fuel s hs h v h1 v' e cb K hK acts adm n
 
+/-- **setattr, joint separation**: the declaration's sites all copy, the value graph the caller passes (roots `K`)
+    is separate from the instance (`K` reaches nothing the instance reaches) ⇒ after `inst.name = value` NO script of
+    native mutations from the caller's value changes ANY observation of the instance — the assigned field and all
+    the other fields, to any depth. -/
+theorem setattr_separation (M : Kind → Cat → Mode) (fuel : Nat) (s : Shape) (hs : safeShape M s = true)
+    (h : Heap) (inst : Nat) (name : String) (v : Item) (h2 : Heap)
+    (e : setattrOp M fuel s h inst name v = (h2, some ()))
+    (cb : ClosedBelow h.next h) (hi : inst < h.next)
+    (K : List Nat) (hK : ∀ r, r ∈ K → r < h.next) (sep : ∀ a, Held h K a → ¬ Reach h inst a)
+    (acts : List Act) (adm : AdmissibleAll h2 K acts) (n : Nat) :
+    observeN n (runScript h2 K acts).1 (.ref inst) = observeN n h2 (.ref inst) := by
+  simp only [setattrOp] at e
+  cases ht : transfer M fuel s h v with
+  | mk h1 o =>
+    rw [ht] at e
+    cases o with
+    | none => simp at e
+    | some v' =>
+      simp only [Prod.mk.injEq, and_true] at e
+      have fr := transfer_frame M fuel s h v h1 _ ht
+      have fs := transfer_fresh h.next M fuel s hs h v h1 v' (Nat.le_refl _)
+        (fun _ ha hlt => absurd (Nat.lt_of_lt_of_le hlt ha) (Nat.lt_irrefl _)) ht
+      have hnext : h2.next = h1.next := by rw [← e]; rfl
+      -- cells of h2
+      have cellInst : h2.cells inst = ⟨(h1.cells inst).tag, setItem name v' (h1.cells inst).items⟩ := by
+        rw [← e]; simp [Heap.write]
+      have cellOther : ∀ b, b ≠ inst → h2.cells b = h1.cells b := by
+        intro b hb; rw [← e]; simp only [Heap.write]; rw [if_neg hb]
+      have cellOld : ∀ b, b ≠ inst → b < h.next → h2.cells b = h.cells b := by
+        intro b hb hlt; rw [cellOther b hb, fr.2 b hlt]
+      -- what the caller holds afterwards is what it held before
+      have heldOld : ∀ a, Held h2 K a → Held h K a := by
+        intro a ha
+        obtain ⟨r, hr, ra⟩ := ha
+        refine ⟨r, hr, c19_reach_transport (h := h) (h2 := h2) ?_ ra⟩
+        intro b rb
+        have hb : b < h.next := reach_below cb (hK r hr) rb
+        have ne : b ≠ inst := by
+          intro eq
+          exact sep b ⟨r, hr, rb⟩ (by rw [eq]; exact Reach.refl _)
+        exact cellOld b ne hb
+      -- what the instance reaches afterwards: what it reached before, or the freshly built value
+      have instReach : ∀ a, Reach h2 inst a → Reach h inst a ∨ (h.next ≤ a ∧ a < h1.next) := by
+        intro a ra
+        induction ra with
+        | refl => exact Or.inl (Reach.refl _)
+        | @step b c _ hk ih =>
+          cases ih with
+          | inr hnew =>
+            have nb : b ≠ inst := fun eq => absurd hi (by rw [← eq]; exact Nat.not_lt.mpr hnew.1)
+            rw [cellOther b nb] at hk
+            exact Or.inr (fs.1 b hnew.1 hnew.2 c hk)
+          | inl hold =>
+            by_cases eb : b = inst
+            · subst eb
+              rw [cellInst] at hk
+              cases c19_kids_setItem _ name v' _ c hk with
+              | inl h3 =>
+                have : c ∈ (h.cells b).kids := by
+                  rw [← fr.2 b hi]
+                  exact h3
+                exact Or.inl (Reach.step hold this)
+              | inr h3 => exact Or.inr (fs.2 c h3)
+            · have hb : b < h.next := reach_below cb hi hold
+              rw [cellOld b eb hb] at hk
+              exact Or.inl (Reach.step hold hk)
+      have sp := script_protects (fun a => Reach h2 inst a) acts h2 K
+        (by
+          intro a ha hp
+          have hold := heldOld a ha
+          cases instReach a hp with
+          | inl h3 => exact sep a hold h3
+          | inr h3 =>
+            obtain ⟨r, hr, ra⟩ := hold
+            exact absurd (reach_below cb (hK r hr) ra) (Nat.not_lt.mpr h3.1))
+        (by
+          intro a hp
+          rw [hnext]
+          cases instReach a hp with
+          | inl h3 => exact Nat.lt_of_lt_of_le (reach_below cb hi h3) fr.1
+          | inr h3 => exact h3.2)
+        adm
+      apply observe_agree (fun a => Reach h2 inst a) (fun a ha => sp.1 a ha)
+        (fun a ha k hk => Reach.step ha hk) n
+      intro a ea
+      simp only [Item.ref.injEq] at ea
+      subst ea
+      exact Reach.refl _
+
+
+/-- non-vacuity of `setattr_separation`, kernel-evaluated on today's table: instance cell 0 (field "a" -> list cell 1),
+    the caller assigns its own list (cell 2, holding list cell 3) to the Array[Array[Integer]] field "f"; emptying both
+    of the caller's lists afterwards leaves every observation of the instance as it was -/
+theorem setattr_separation_example :
+    let h0 := Heap.ofList [⟨"inst", [("a", .ref 1)]⟩, ⟨"list", [("0", .atom 2)]⟩,
+                           ⟨"list", [("0", .ref 3)]⟩, ⟨"list", [("0", .atom 2)]⟩]
+    let s := Shape.coll .array (.coll .array (.scalar .number))
+    (match setattrOp (modeOf Generated.aliasing .setattr) 9 s h0 0 "f" (.ref 2) with
+     | (h2, some ()) =>
+       safeShape (modeOf Generated.aliasing .setattr) s &&
+       (observeN 5 (runScript h2 [2] [.write 2 ⟨"list", []⟩, .write 3 ⟨"list", []⟩]).1 (.ref 0)).beq (observeN 5 h2 (.ref 0)) &&
+       (reachList 5 h2 (.ref 0)).length == 4
+     | _ => false) = true := by
+  decide +kernel
+
 /-! ## part 3 — the table -/
 
 def TablesOk (tbl : List AliasRow) : Prop := ∀ r, r ∈ tbl → (r.safe || !r.inScope || isKnown r) = true
